@@ -243,7 +243,25 @@ func genOp(t *rapid.T, kinds []string, hp *HistoryParams, depth int) Op {
 // GenSchedule draws scheduler decisions: either uniformly mixed or bursty (one task runs several steps in a row),
 // because many races need "A starts, B runs to completion, A continues".
 func GenSchedule(t *rapid.T) []int {
-	if rapid.Bool().Draw(t, "bursty") {
+	shape := rapid.IntRange(0, 3).Draw(t, "schedShape")
+	if shape == 3 {
+		// nested: the first task takes a few steps, the others then run to completion one after the other, the first continues
+		var out []int
+		first := rapid.IntRange(0, 2).Draw(t, "nestFirst")
+		k := rapid.IntRange(1, 10).Draw(t, "nestPrefix")
+		for i := 0; i < k; i++ {
+			out = append(out, first)
+		}
+		other := 1
+		if first != 0 {
+			other = 0
+		}
+		for i := 0; i < 70; i++ {
+			out = append(out, other)
+		}
+		return out
+	}
+	if shape >= 1 {
 		var out []int
 		n := rapid.IntRange(1, 6).Draw(t, "bursts")
 		for i := 0; i < n; i++ {
